@@ -52,28 +52,48 @@ def scratch_copy(repo):
 
 
 def run(prop, rules, repo, run_rules, limit=None):
-    """run_rules(repo_dir) -> list of violation instances (after known-findings / audited filtering)."""
+    """Every candidate patch is applied to its own scratch copy and the quick tier of `prop` is evaluated there by a
+    worker process (bin/_matrix_worker.py); several copies are worked on in parallel.  `run_rules` (in-process
+    evaluation) is the fallback when the worker cannot be started."""
+    import sys
+    from concurrent.futures import ThreadPoolExecutor
     res = {"applied": 0, "detected": 0, "skipped": [], "missed": [], "errors": []}
     cands = candidates(prop)
     if limit:
         cands = cands[:limit]
-    for kind, name, patch in cands:
+    worker = os.path.join(VERIF, "bin", "_matrix_worker.py")
+
+    def one(c):
+        kind, name, patch = c
         d = scratch_copy(repo)
         try:
             r = subprocess.run(["git", "apply", patch], cwd=d, capture_output=True, text=True, env=dict(os.environ, GIT_CEILING_DIRECTORIES=os.path.dirname(d)))
             if r.returncode != 0:
+                return name, "skipped", None
+            try:
+                w = subprocess.run([sys.executable, worker, d, prop], capture_output=True, text=True)
+                out = json.loads(w.stdout.strip().split("\n")[-1])[prop]
+                if out.get("exit") == 2:
+                    return name, "error", out.get("tail", "")[-300:]
+                return name, ("detected" if out.get("exit") == 1 else "missed"), None
+            except Exception as ex:  # noqa: BLE001 -- fall back to the in-process evaluation
+                try:
+                    return name, ("detected" if run_rules(d) else "missed"), None
+                except SystemExit as ex2:
+                    return name, "error", str(ex2)
+        finally:
+            shutil.rmtree(d, ignore_errors=True)
+    jobs = int(os.environ.get("SELFTEST_JOBS", "6"))
+    with ThreadPoolExecutor(jobs) as ex:
+        for name, what, info in ex.map(one, cands):
+            if what == "skipped":
                 res["skipped"].append(name)
                 continue
             res["applied"] += 1
-            try:
-                v = run_rules(d)
-            except SystemExit as ex:
-                res["errors"].append("%s: %s" % (name, ex))
-                continue
-            if v:
+            if what == "detected":
                 res["detected"] += 1
-            else:
+            elif what == "missed":
                 res["missed"].append(name)
-        finally:
-            shutil.rmtree(d, ignore_errors=True)
+            else:
+                res["errors"].append("%s: %s" % (name, info))
     return res
